@@ -14,15 +14,21 @@ closed old handles in place until the new ones are installed.)
 Regression witness for the code BEFORE that fix (`nilOnSwap := true`), by `decide`:
 `C12_nil_handles_counterexample_oldshape` (a failed remove / rename / reopen left both handles
 nil and the next append panicked); the same faults now: `C12_nil_handles_fixed`.
-PROVED towards "resumes": `C12_compaction_succeeds_after_fault_partial` — once the fault lies in
-the past every compaction (hence tryAppend's immediate recovery compaction) succeeds.
-NOT PROVED: `C12_resumes` (after the fault, a restart reflects all later changes): judged on
-the real code by the monitor (`fault-not-resumed`) at every fault index of every generated
-life, and compared with the model's recovery.
+Also: `C12_compaction_succeeds_after_fault_partial` — once the fault lies in the past every
+compaction (hence tryAppend's immediate recovery compaction) succeeds.
+PROVED: `C12_resumes` — RECORDING RESUMES: for every faulty history `evs1` (any events without a
+graceful leave, recovery interval elapsing anywhere) and every fault index `k`, once the fault
+lies in the past: after the next compaction — the recovery compaction `tryAppend` starts by itself
+right after a failed append (`C12_recovery_compaction_is_automatic`), or any later one — for every
+further history `evs2` and shutdown, the node does not panic and a restart recovers from the
+snapshot file EXACTLY the state the node has in memory at that shutdown (rejoin map as a map,
+the three clocks).  The quiescent point is the shutdown (its flush); in between, C10's invariant
+holds at every point (file ++ buffer replays to the memory).  Hypothesis: `WFEv` (names without
+newline — C10's open finding) and no graceful leave (C13's territory).
 -/
-import SerfProofs.Lemmas.SnapshotFault
+import SerfProofs.Lemmas.SnapshotFaultMem
 namespace SerfProofs.C12
-open SerfModel SerfModel.Snapshot SerfModel.SnapshotFault SerfProofs.SnapshotFault
+open SerfModel SerfModel.Snapshot SerfModel.SnapshotFault SerfProofs.SnapshotFault SerfProofs.Snapshot
 
 /-- **No panic under any single I/O fault.** -/
 theorem C12_no_panic (rj : Bool) (mc : Nat) (fault : Option Nat) (evs : List FEv) (clk : Nat) :
@@ -41,6 +47,49 @@ theorem C12_compaction_succeeds_after_fault_partial (st : FSnap) (h : Q st) :
 
 /-- non-vacuity: the state right after a failed write (fault 1 of the witness history) satisfies `Q` -/
 example : Q (fInit false 0 none) := ⟨⟨rfl, rfl, rfl⟩, rfl, Or.inl rfl⟩
+
+/-- **Recording resumes** (see the header). `evs1`: the faulty phase; `k`: the fault index, already
+consumed at the end of `evs1`; then a compaction, `evs2`, shutdown, restart. -/
+theorem C12_resumes (rj : Bool) (mc : Nat) (k : Nat) (evs1 : List FEv) (evs2 : List Ev) (clk : Nat)
+    (h1 : ∀ fe ∈ evs1, WFFEv fe) (h2 : ∀ e ∈ evs2, WFEv e) (hnl : Ev.leave ∉ evs2)
+    (hcons : Consumed (fRun (fInit rj mc (some k)) evs1)) :
+    (fShutdown (fRun (fCompact (fRun (fInit rj mc (some k)) evs1)).1 (evs2.map .ev)) clk).panicked = false ∧
+    MapEq (recover rj (mfs (fShutdown (fRun (fCompact (fRun (fInit rj mc (some k)) evs1)).1 (evs2.map .ev)) clk))).alive
+      (fShutdown (fRun (fCompact (fRun (fInit rj mc (some k)) evs1)).1 (evs2.map .ev)) clk).s.alive ∧
+    (akeys (fShutdown (fRun (fCompact (fRun (fInit rj mc (some k)) evs1)).1 (evs2.map .ev)) clk).s.alive).Nodup ∧
+    (recover rj (mfs (fShutdown (fRun (fCompact (fRun (fInit rj mc (some k)) evs1)).1 (evs2.map .ev)) clk))).clock =
+      (fShutdown (fRun (fCompact (fRun (fInit rj mc (some k)) evs1)).1 (evs2.map .ev)) clk).s.lastClock ∧
+    (recover rj (mfs (fShutdown (fRun (fCompact (fRun (fInit rj mc (some k)) evs1)).1 (evs2.map .ev)) clk))).eventClock =
+      (fShutdown (fRun (fCompact (fRun (fInit rj mc (some k)) evs1)).1 (evs2.map .ev)) clk).s.lastEventClock ∧
+    (recover rj (mfs (fShutdown (fRun (fCompact (fRun (fInit rj mc (some k)) evs1)).1 (evs2.map .ev)) clk))).queryClock =
+      (fShutdown (fRun (fCompact (fRun (fInit rj mc (some k)) evs1)).1 (evs2.map .ev)) clk).s.lastQueryClock := by
+  have hP := fRun_P evs1 _ (fInit_P rj mc (some k))
+  have hM := fRun_mem rj evs1 _ (fInit_mem rj mc (some k)) h1
+  have key := resumes_after_compaction (fRun (fInit rj mc (some k)) evs1) ⟨hP, hM.1, hcons⟩ hM.2.1 hM.2.2.1 evs2 clk h2 hnl
+  rw [hM.2.2.2] at key
+  exact key
+
+/-- the recovery compaction needs no outside help: when an append fails and no recovery was
+attempted during the last snapshotErrorRecoveryInterval, `tryAppend` itself runs the compaction -/
+theorem C12_recovery_compaction_is_automatic (st : FSnap) (l : Bytes)
+    (herr : (fAppendLine st l).2 = .err) (hatt : (fAppendLine st l).1.attempted = false) :
+    fTryAppend st l = (fCompact { (fAppendLine st l).1 with attempted := true }).1 := by
+  unfold fTryAppend
+  simp only [herr, hatt, Bool.false_eq_true, ↓reduceIte]
+
+/-- non-vacuity of `C12_resumes`: `user 5` on a fresh snapshotter with threshold 0 compacts at once;
+fault 8 is the rename of that compaction (the window), the recovery compaction follows inside the
+same `tryAppend`; afterwards the fault is consumed and the events are well formed -/
+example : (∀ fe ∈ [FEv.ev (.user 5)], WFFEv fe) ∧ Consumed (fRun (fInit false 0 (some 8)) [FEv.ev (.user 5)]) ∧
+    (∀ e ∈ [Ev.query 6, .join [(['a'], ['1', ':', '2'])] 2], WFEv e) ∧ Ev.leave ∉ [Ev.query 6, .join [(['a'], ['1', ':', '2'])] 2] := by
+  refine ⟨?_, Or.inr ⟨8, rfl, by decide⟩, ?_, by decide⟩
+  · intro fe hfe
+    simp only [List.mem_cons, List.mem_nil_iff, or_false] at hfe
+    subst hfe
+    exact ⟨by simp [WFEv, U64], by simp⟩
+  · intro e he
+    simp only [List.mem_cons, List.mem_nil_iff, or_false] at he
+    rcases he with rfl | rfl <;> simp [WFEv, WFName, WFAddr, U64]
 
 def cexEvs : List FEv := [.ev (.join [(['a'], ['1', ':', '2'])] 2), .ev .forceCompact, .ev (.clockTick 9)]
 
